@@ -7,7 +7,7 @@
   leaf objects is not modelled) or the address of another dict node.  Every item assignment
   `d[k] = r` is `store` (it also logs the address of the node written); `copy(d)` / `base()` are
   `alloc`.  Mirrors, statement by statement:
-    `_tree_copy`     :211-217   `copyH` / `copyKids`   (repaired code, fix 1b3a1b1)
+    `_tree_copy`     :211-217   `copyH` / `copyKids`   (repaired code, fix 0ee7c0c)
     `_tree_setitem`  :220-231   `setItemH`
     `tree_items`     :334-377   `itemsH`
     `items_to_tree`  :425-497   `itemsToTreeH` (and `itemsToTreeShallow`: the code before the fix, `copy(tree)`)
@@ -107,7 +107,7 @@ def itemsToTreeH (f : Nat) (m : Mem) (its : List (Path × Val)) (t : Nat) (ig : 
     | .error e => .error e
     | .ok (m1, c) => .ok (setItemsH m1 c its ig, c)
 
-/-- the code before fix 1b3a1b1: `tree = copy(tree)` (one level only) -/
+/-- the code before fix 0ee7c0c: `tree = copy(tree)` (one level only) -/
 def itemsToTreeShallow (m : Mem) (its : List (Path × Val)) (t : Nat) (ig : List Val) : Res (Mem × Nat) :=
   if ¬ (its.map (·.1)).Nodup then .error Err.value
   else if its.any (·.1.isEmpty) then .error Err.value
@@ -123,6 +123,21 @@ def treeUpdateShallow (f : Nat) (m : Mem) (t u : Nat) (ig : List Val) : Res (Mem
   match itemsH m.heap f (.ptr u) with
   | .error e => .error e
   | .ok its => itemsToTreeShallow m its t ig
+
+/-- `table_to_tree(tree, pattern, rows, base = type(tree))` for the tree at address `t` and the items `its` its rows bind
+(`_table_to_tree.py:31-38`, repaired code, fix `4e01c0b`: `_tree_copy(tree)`, then one `_tree_setitem` per row; no duplicate check, no
+ignore list).  `ValueError` for an item without a key ('node item too short'; the code raises it in the middle of the loop, after
+writes into the COPY only). -/
+def tableToTreeH (f : Nat) (m : Mem) (its : List (Path × Val)) (t : Nat) : Res (Mem × Nat) :=
+  if its.any (·.1.isEmpty) then .error Err.value
+  else match copyH f m t with
+    | .error e => .error e
+    | .ok (m1, c) => .ok (setItemsH m1 c its [], c)
+
+/-- the code before that fix: `tree = copy(tree)`, one level only -/
+def tableToTreeShallow (m : Mem) (its : List (Path × Val)) (t : Nat) : Res (Mem × Nat) :=
+  if its.any (·.1.isEmpty) then .error Err.value
+  else .ok (setItemsH (alloc m (node m t)).1 m.heap.length its [], m.heap.length)
 
 /-- read the tree below a reference back (the abstraction function, executable) -/
 def readN (rec : Ref → Option Val) : Node → Option (List (String × Val))
